@@ -118,7 +118,21 @@ func symPriorDestGid(dest string, src []*srcEnt, rewrite bool, gid uint32) map[s
 		if v.Param("META", 0) != 0 && p != "d" && os.FileMode(st.Mode)&os.ModeType == 0 && !isHardlink {
 			np = 6
 		}
-		switch c := v.Choose("prior-"+p, np); c {
+		dirChown := -1
+		if v.Param("META", 0) != 0 && os.FileMode(st.Mode).IsDir() {
+			dirChown = np
+			np++
+		}
+		c := v.Choose("prior-"+p, np)
+		if c == dirChown {
+			// a pure metadata edit of a directory: same mode and mtime, other owner
+			state[p] = "dir-chown"
+			v.Cover("dir-chown")
+			m.MkDir(full, goModeToUnixPerm(st.Mode), st.Uid+1, st.Gid, st.ModTime)
+			dirOK[p] = true
+			continue
+		}
+		switch c {
 		case 0:
 			state[p] = "absent"
 		case 1:
